@@ -772,7 +772,15 @@ func (m *BGP4MPHeader) serialize() ([]byte, error) {
 	if m.isAS4 {
 		values = []any{m.PeerAS, m.LocalAS, m.InterfaceIndex, m.AddressFamily}
 	} else {
-		values = []any{uint16(m.PeerAS), uint16(m.LocalAS), m.InterfaceIndex, m.AddressFamily}
+		// The 2-octet AS subtypes cannot carry a 4-octet AS number: write
+		// AS_TRANS (RFC 6793) instead of the low 16 bits of the number.
+		as2 := func(as uint32) uint16 {
+			if as > math.MaxUint16 {
+				return bgp.AS_TRANS
+			}
+			return uint16(as)
+		}
+		values = []any{as2(m.PeerAS), as2(m.LocalAS), m.InterfaceIndex, m.AddressFamily}
 	}
 	buf, err := packValues(values...)
 	if err != nil {
